@@ -75,10 +75,10 @@ theorem Tok.setC {s s' : State} (h : Tok san s) (t : Nat) (p' : CPc) (hreg : s'.
     cases hcw : s.closers w <;> rw [hcw] at hcov <;> simp only [Unvisited, hreg, hsnap] <;> exact hcov
 
 theorem finalPass_visited {s : State} {t k sid : Nat} (hf : finalPassComplete s t = true)
-    (hk : (k, sid) ∈ s.reg.reg) (hs : (k, sid) ∈ s.snap) : k ∈ visitedOf (pcOf s.reg (closerTid t)) := by
+    (hk : (k, sid) ∈ s.reg.reg) (hs : (k, sid) ∈ s.snap) : (k, sid) ∈ visitedOf (pcOf s.reg (closerTid t)) := by
   simp only [finalPassComplete, List.all_eq_true] at hf
   have := hf (k, sid) hk
-  have h2 : ¬ (k, sid) ∈ s.snap ∨ k ∈ visitedOf (pcOf s.reg (closerTid t)) := by simpa using this
+  have h2 : ¬ (k, sid) ∈ s.snap ∨ (k, sid) ∈ visitedOf (pcOf s.reg (closerTid t)) := by simpa using this
   rcases h2 with h2 | h2
   · exact absurd hs h2
   · exact h2
@@ -121,7 +121,7 @@ theorem life_tok_step {s s' : State} {e : Ev} (hctl : Ctl s) (h : Tok san s) (hs
       have hsw : Swapper s.reg sid' → Swapper r sid' := fun ⟨t, ht⟩ => ⟨t, by rw [hpc]; exact ht⟩
       cases hcw : s.closers w <;> rw [hcw] at hcov <;> simp only
       · rcases hcov with ⟨k, h1, h2, h3⟩ | hcov
-        · left; exact ⟨k, by show (k, sid') ∈ r.reg; rw [hreg]; exact h1, h2, by show k ∉ visitedOf (pcOf r _); rw [hpc]; exact h3⟩
+        · left; exact ⟨k, by show (k, sid') ∈ r.reg; rw [hreg]; exact h1, h2, by show (k, sid') ∉ visitedOf (pcOf r _); rw [hpc]; exact h3⟩
         · exact Or.inr (hsw hcov)
       · exact hsw hcov
   | close sid =>
@@ -256,7 +256,7 @@ theorem life_tok_step {s s' : State} {e : Ev} (hctl : Ctl s) (h : Tok san s) (hs
         simp only [if_true]
         left
         refine ⟨k, hk', hk, ?_⟩
-        show k ∉ visitedOf (pcOf r (closerTid t))
+        show (k, sid) ∉ visitedOf (pcOf r (closerTid t))
         rw [passBegin_pc hr]; simp [visitedOf]
     · next hpc =>
       simp only [regStep] at hs
